@@ -4,7 +4,7 @@ from specs.common import J
 G = "internal/graph"
 
 MODELS_QUICK = ["direct", "wildcard", "union_computed", "userset", "ttu", "exclusion", "intersection", "condition",
-                "inter_excl", "shared_tuples", "userset_flat", "h6", "condition_userset"]
+                "inter_excl", "shared_tuples", "userset_flat", "h6", "condition_userset", "cond_wild"]
 MODELS_ALL = MODELS_QUICK + ["computed_chain", "rec_intersection", "userset_ttu_mix", "ttu_excl"]
 
 
@@ -18,6 +18,14 @@ def c01(tier, seed):
                       timeout_ms=60000, unwind=64, max_paths=6000 if q else 100000))
         # B: with invalid leftovers, all subjects (usersets, wildcards), seeded subset of candidates
         jobs.append(J(G, "VerifE01Check", model=m, maxcands=10 if q else 16, seed=seed % 7, timeout_ms=60000, unwind=64, max_paths=4000 if q else 60000))
+    # history: an arbitrary other request answered first on the same typesystem / checker (memo tables warm);
+    # `dashed` has type names that contain '-' (separator-like characters in memo keys)
+    for m in ["dashed", "cond_wild"] + ([] if q else ["userset", "ttu"]):
+        jobs.append(J(G, "VerifE01Check", model=m, maxcands=12, prior=1, subjects="min", timeout_ms=60000, unwind=64, max_paths=8000 if q else 100000))
+    # a userset cycle next to a granting path under an intersection / exclusion, operands consumed one at a time
+    jobs.append(J(G, "VerifE01Check", model="cycle_inter", maxcands=14, invalid=0, subjects="min", breadth=1, timeout_ms=60000, unwind=64, max_paths=8000 if q else 100000))
+    if not q:
+        jobs.append(J(G, "VerifE01Check", model="cycle_inter", maxcands=14, invalid=0, subjects="min", timeout_ms=60000, unwind=64, max_paths=100000))
     return jobs
 
 
